@@ -27,7 +27,7 @@ Agrees(r) ==
      ELSE IF Ok(v) THEN r.kind = "err" \/ (r.kind \in {"ok", "mixed"} /\ r.bytes = Canon(v))
      ELSE r.kind = "err"
   \* the signing form of an object (top-level "signatures"/"unsigned" removed); "none" = not an object or not accepted
-  /\ r.sign = "none" \/ (r.sign = "ok" /\ v.t = "obj" /\ Ok(v) /\ r.sbytes = SigningBytes(v))
+  /\ (r.sign = "none" /\ r.sbytes = <<>>) \/ (r.sign = "ok" /\ v.t = "obj" /\ Ok(v) /\ r.sbytes = SigningBytes(v))
   /\ (v.t = "obj" /\ Ok(v) /\ OkStrict(v)) => r.sign = "ok"
 Check == Agrees(Rec[i]) \/ PrintT(<<"MISMATCH", i>>)
 =============================================================================
